@@ -17,6 +17,8 @@ CONSTANTS Workload,    \* sequence of [side, ch, cid, len]: messages submitted, 
           Reorder,     \* may the network reorder (FALSE: only losses and duplicates of the newest packet)
           RecvAnywhere, \* application receives between any two steps (otherwise only in the good rounds)
           PropsOn,     \* sequence of property ids the observer evaluates
+          MaxHostile,  \* hostile packets injected per behaviour (0: none)
+          HostileSet,  \* "none" | "small" | "full": which abstract hostile packets
           ExportAll,   \* export a path for every state (TRUE) or only for the finished behaviours (FALSE, large configurations)
           Export       \* keep a history of steps and predicted events (simulation / tiny scopes only)
 
@@ -55,6 +57,9 @@ P_C03 == <<"C03">>
 P_C08 == <<"C08">>
 P_C09 == <<"C09">>
 P_C14 == <<"C14">>
+P_C06 == <<"C06">>
+P_C13 == <<"C13">>
+WL_U_RO_sliced == <<M("C", 0, 1, 1201), M("C", 1, 2, 2401)>>
 P_C15 == <<"C15">>
 P_C02 == <<"C02">>
 P_REL == <<"C01", "C02", "C03", "C08">>
@@ -63,7 +68,7 @@ Cfg == [conns |-> <<1>>, sc |-> ChSC, cs |-> ChCS, budget |-> Budget, seqbase |-
 
 Init == /\ w = NewWorld
         /\ obs = ObsReset(Cfg)
-        /\ ctl = [wl |-> 1, nfl |-> [s \in {"S", "C"} |-> 0], nt |-> 0, healed |-> FALSE, rounds |-> 0]
+        /\ ctl = [wl |-> 1, nfl |-> [s \in {"S", "C"} |-> 0], nt |-> 0, nh |-> 0, healed |-> FALSE, rounds |-> 0]
         /\ hist = <<>>
 
 Record(step, evs) == hist' = IF Export THEN Append(hist, step) ELSE hist
@@ -109,6 +114,36 @@ ADeliver(to, fl, ix) ==
     /\ Apply(One(DoDeliver(w, to, fl, ix)), [a |-> "deliver", conn |-> 1, to |-> to, fl |-> fl, ix |-> ix])
     /\ UNCHANGED ctl
 
+(***************************************************************************)
+(* Hostile packets (C06): abstract shapes around every boundary the        *)
+(* receiving code looks at -- channel (right kind / wrong kind / absent),  *)
+(* message id (below, at, above the cursor, an open reassembly, far),      *)
+(* announced slice count vs the one first announced, slice index (inside,  *)
+(* last, one past, far), payload length (0, 1, SLICE-1, SLICE, SLICE+1).   *)
+(***************************************************************************)
+HSeq == 900
+HChans == {0, 1, 7}
+HMids == {0, 1, 2, 50}
+HNs == IF HostileSet = "full" THEN {1, 2, 3, 4, 1000000} ELSE {1, 3, 4}
+HIdx == IF HostileSet = "full" THEN {0, 1, 2, 3, 4, 1000000} ELSE {0, 2, 3, 1000000}
+HLens == IF HostileSet = "full" THEN {0, 1, 1199, 1200, 1201} ELSE {1, 1200}
+HostileSlices == { MkSlice(x[1], HSeq, x[2], x[3], x[4], x[5], x[6], 0 - 1) :
+                     x \in {"RS", "US"} \X HChans \X HMids \X HIdx \X HNs \X HLens }
+HostileSmall == { MkSmall("SR", HSeq, c, <<[mid |-> m, cid |-> 0 - 1, len |-> l]>>) : c \in HChans, m \in HMids, l \in {0, 1200} }
+                \cup { MkSmall("SU", HSeq, c, <<[mid |-> 0 - 1, cid |-> 0 - 1, len |-> l]>>) : c \in HChans, l \in {0, 1200} }
+                \cup { MkSmall("SR", HSeq, c, <<>>) : c \in HChans }
+HostileAcks == { MkAck(HSeq, <<r>>) : r \in {<<0, 1>>, <<0, 3>>, <<2, 1000>>, <<5, 6>>} }
+HostileBad == { [seq |-> 0, kind |-> "BAD", ch |-> 0 - 1, bytes |-> 5, msgs |-> <<>>, sl |-> NoSl, ranges |-> <<>>, pay |-> 0] }
+\* the crate's decoder rejects a reliable slice with an empty or oversized payload, and any slice count above 10^6
+Decodable(p) == ~(p.kind = "RS" /\ (p.sl.len = 0 \/ p.sl.len > SLICE))
+HostileDomain == IF HostileSet = "none" THEN {}
+                 ELSE {p \in HostileSlices : Decodable(p)} \cup HostileSmall \cup HostileAcks \cup HostileBad
+
+AHostile(to, p) ==
+    /\ ~ctl.healed /\ ctl.nh < MaxHostile
+    /\ Apply(One(DoHostile(w, to, p)), [a |-> "hostile", conn |-> 1, to |-> to, p |-> p])
+    /\ ctl' = [ctl EXCEPT !.nh = @ + 1]
+
 AHeal == /\ ~ctl.healed
          /\ ctl.wl > Len(Workload)
          /\ \A s \in {"S", "C"} : ctl.nfl[s] = MaxFlush(s)
@@ -128,6 +163,7 @@ Next == \/ ASend
         \/ \E dt \in Dts : ATick(dt)
         \/ \E side \in {"S", "C"} : AFlush(side)
         \/ \E to \in {"S", "C"} : \E fl \in 1..MaxFl : \E ix \in 1..MaxPk : ADeliver(to, fl, ix)
+        \/ \E p \in HostileDomain : AHostile("S", p)
         \/ AHeal
         \/ ARound
 
